@@ -366,6 +366,14 @@ def gen_faults(rng, sc):
 
 def generate(rng, family, big):
     sc = FAMILIES[family](rng, big)
+    # every real program collects garbage while operations are pending: the collector visits each waiting fiber
+    # (JANET_ASYNC_EVENT_MARK to its callback); a third of the scenarios run a fiber that forces collections meanwhile
+    if rng.chance(1, 3):
+        prog = []
+        for _ in range(2 + rng.below(8)):
+            prog += [["gc"], ["yield", 1 + rng.below(4)]]
+        sc["fibers"] = sc["fibers"] + [{"name": "gc", "prog": prog}]
+        sc["collector"] = True
     sc["faults"] = gen_faults(rng, sc)
     sc["payload_seed"] = rng.next() & 0xFFFFFFFF
     return sc
